@@ -16,7 +16,7 @@ export PBMC_VERIF_DIR="$S" PBMC_REPO_DIR="$S/repo" CARGO_TARGET_DIR="$S/target"
 tmp="$S/table.md"
 echo "| repair | reverted | check | recorded signature | now |" > "$tmp"; echo "|---|---|---|---|---|" >> "$tmp"
 bad=0; n=0
-for sha in $(grep '^fixed:' /verif/KNOWN_FINDINGS.txt | awk '{print $3}' | awk '!seen[$0]++'); do
+for sha in ${FIX_SHAS:-$(grep "^fixed:" /verif/KNOWN_FINDINGS.txt | awk "{print \$3}" | awk "!seen[\$0]++")}; do
   subj=$(git -C /repo log -1 --format=%s "$sha" | cut -c1-70)
   if git -C /repo show "$sha" -- src gsd-parser/src | git -C "$S/repo" apply -R 2>/dev/null; then how="cleanly"
   elif git -C /repo show "$sha" -- src gsd-parser/src | git -C "$S/repo" apply -R --3way 2>/dev/null && ! git -C "$S/repo" diff --name-only --diff-filter=U | grep -q .; then how="3-way"
